@@ -23,10 +23,12 @@ Rules == {[names |-> s.names, conds |-> s.conds, uid |-> u, title |-> t, fname |
             s \in Shapes, u \in 0..2, t \in 1..2, f \in 1..2, d \in 1..2}
 AllV == {"dangling_detection", "dangling_condition", "identifier_uniqueness", "duplicate_title", "duplicate_filename"}
 VSets == {AllV, {}} \cup {{v} : v \in AllV} \cup {AllV \ {v} : v \in {"dangling_detection", "duplicate_title"}}
-Excls == {{}, {<<"dangling_detection", 1>>}, {<<"identifier_uniqueness", 1>>, <<"duplicate_title", 2>>}, {<<"dangling_condition", 2>>, <<"duplicate_filename", 1>>}}
+Excls == {{}, {<<"dangling_detection", 1>>}, {<<"identifier_uniqueness", 1>>, <<"duplicate_title", 2>>}, {<<"dangling_condition", 2>>, <<"duplicate_filename", 1>>},
+          \* entries for the rules WITHOUT identifier (key null in the table)
+          {<<"dangling_detection", 0>>, <<"duplicate_title", 0>>}, {<<"dangling_condition", 0>>, <<"duplicate_filename", 0>>, <<"dangling_detection", 1>>}}
 N == IF Quick THEN 500 ELSE 8000
 Colls == {<<r>> : r \in RandomSubset(60, Rules)} \cup RandomSubset(N, [1..2 -> Rules]) \cup RandomSubset(N, [1..3 -> Rules])
-Cases == {[coll |-> c, V |-> SetToSeq(v), excl |-> SetToSeq(e)] : c \in Colls, v \in RandomSubset(3, VSets) \cup {AllV}, e \in RandomSubset(2, Excls)}
+Cases == {[coll |-> c, V |-> SetToSeq(v), excl |-> SetToSeq(e)] : c \in Colls, v \in RandomSubset(3, VSets) \cup {AllV}, e \in RandomSubset(3, Excls)}
 ASSUME LET S == SetToSeq(Cases) IN ndJsonSerialize(IOEnv.VERIF_OUT, [i \in 1..Len(S) |-> [id |-> i] @@ S[i]])
 Init == x = 0
 Next == UNCHANGED x
